@@ -128,7 +128,9 @@ def check(case, ctx):
             ctx.nontrivial(len(rows) >= 2 and len(vidx) >= 2)
             molten = _T(etl.melt(T, **kw))
             exp_m = [tuple(key) + ("variable", "value")] + [tuple(r[i] for i in kidx) + (hdr[v], r[v]) for r in rows for v in vidx]
-            if not codec.strict_eq(molten, exp_m):
+            # exactly one row per (row, variable) cell: a multiset statement; the header is exact
+            if not codec.strict_eq(molten[:1], exp_m[:1]) or not R.same_multiset(molten[1:], exp_m[1:]) or \
+                    sorted(map(codec.dumps, molten[1:])) != sorted(map(codec.dumps, exp_m[1:])):
                 return fail("melt", molten, exp_m)
             if len(molten) - 1 != len(rows) * len(vidx):
                 return fail("melt-count", len(molten) - 1, len(rows) * len(vidx))
@@ -188,8 +190,21 @@ def check(case, ctx):
                         row.append(case["missing"])
                 exp.append(tuple(row))
             ctx.nontrivial(sparse and len(groups) >= 2)
-            if not codec.strict_eq(got, exp):
-                return fail("rows", got, exp)
+            # cell (r, c) is what the statement is about: compare the cell map, not the layout order
+            def cellmap(t):
+                cols = list(t[0][1:])
+                m = {}
+                for row in t[1:]:
+                    if len(row) != len(cols) + 1:
+                        return None
+                    for c_, v in zip(cols, row[1:]):
+                        if (row[0], c_) in m:
+                            return None
+                        m[(row[0], c_)] = v
+                return m
+            gm, em = cellmap(got), cellmap(exp)
+            if not got or got[0][:1] != ("r",) or gm is None or gm != em or sorted(map(codec.dumps, gm.values())) != sorted(map(codec.dumps, em.values())):
+                return fail("cells", got, exp)
         elif op == "unpack":
             f, inc, missing = case["field"], case["include_original"], case["missing"]
             fi = f if isinstance(f, int) else hdr.index(f)
